@@ -50,7 +50,8 @@ ACTIONS = {"ff": ["OEdge", "SetInput", "SetReset", "Unrelated"],
 # themselves ("sync": parameter omitted), an unrelated active "sync" domain next to them, the input as an expression
 ENVS = {
     "ff": [{}, dict(o_name="fast", sync=True), dict(o_name="sync", expr="not"), dict(o_name="sec", sync=True, expr="bit"),
-           dict(o_name="sync", expr="bit"), dict(o_name="o", sync=True, expr="not"), dict(o_name="sync")],
+           dict(o_name="sync", expr="bit"), dict(o_name="o", sync=True, expr="not"), dict(o_name="sync"),
+           dict(expr="sgn"), dict(o_name="sec", sync=True, expr="as_s"), dict(o_name="sync", expr="sgn")],
     "async": [{}, dict(o_name="sec", sync=True, expr="rst"), dict(o_name="sec", sync=True, expr="rst_or"),
               dict(o_name="sync", expr="not"), dict(o_name="fast", sync=True, expr="bit"), dict(o_name="sec", sync=True),
               dict(o_name="sync"), dict(o_name="o", sync=True, expr="not"), dict(o_name="sync", expr="bit")],
